@@ -150,9 +150,18 @@ def _pack_fails(p) -> Dict[str, Any]:
     return {"failed": False, "_raw": hx(raw)}
 
 
+def _enum(en, v: int):
+    """the IntEnum member when there is one, the plain int otherwise (the library takes both; the shrinker of the
+    framework may lower a value to a non-member)"""
+    try:
+        return en(v)
+    except ValueError:
+        return v
+
+
 # ---- base ----
 def _fd(a) -> FileDirectivePduBase:
-    return FileDirectivePduBase(pdu_conf=_conf(a), directive_code=DirectiveType(a["code"]),
+    return FileDirectivePduBase(pdu_conf=_conf(a), directive_code=_enum(DirectiveType, a["code"]),
                                 directive_param_field_len=a["plen"])
 
 
@@ -207,9 +216,9 @@ def _eq_op(build):
 
 # ---- ACK ----
 def _ack(a) -> AckPdu:
-    cond = ConditionCode(a["cond"])
-    return AckPdu(pdu_conf=_conf(a), directive_code_of_acked_pdu=DirectiveType(a["acked"]),
-                  condition_code_of_acked_pdu=cond, transaction_status=TransactionStatus(a["status"]))
+    return AckPdu(pdu_conf=_conf(a), directive_code_of_acked_pdu=_enum(DirectiveType, a["acked"]),
+                  condition_code_of_acked_pdu=_enum(ConditionCode, a["cond"]),
+                  transaction_status=_enum(TransactionStatus, a["status"]))
 
 
 def op_ack_new(a):
@@ -228,7 +237,7 @@ def op_ack_unpack(a):
 
 # ---- Prompt ----
 def _prompt(a) -> PromptPdu:
-    return PromptPdu(pdu_conf=_conf(a), response_required=ResponseRequired(a["resp"]))
+    return PromptPdu(pdu_conf=_conf(a), response_required=_enum(ResponseRequired, a["resp"]))
 
 
 def op_prompt_pack(a):
@@ -321,7 +330,10 @@ def op_nak_set_file_flag(a):
 def op_nak_max_segs(a):
     conf = _conf(a)
     n = get_max_seg_reqs_for_max_packet_size_and_pdu_cfg(a["max"], conf)
-    p = NakPdu(pdu_conf=conf, start_of_scope=0, end_of_scope=0)
+    try:
+        p = NakPdu(pdu_conf=conf, start_of_scope=0, end_of_scope=0)
+    except ValueError:
+        return {"n": int(n)}        # configuration no PDU can be built from (ID widths differ): nothing more to check
     if p.get_max_seg_reqs_for_max_packet_size(a["max"]) != n:
         raise SelfCheckFailure("member and free function disagree on the maximum number of segment requests")
     # meaning of the number: n requests fit into max, n + 1 do not
@@ -592,7 +604,7 @@ class C06Fixed(Prop):
         codes = sorted(DIR_CODES.values())
         plens = [0, 1, 2, 3, 255, 256, 65533, 65534]
         k = 0
-        for rep in range(4 if thorough else 1):
+        for rep in range(6 if thorough else 2):
             for a in all_confs(rng):
                 k += 1
                 p = {"code": codes[k % len(codes)], "plen": plens[k % len(plens)] if k % 3 else rng.randint(0, 65534)}
@@ -656,7 +668,7 @@ class C06Fixed(Prop):
     def ack_cases(self, rng, thorough):
         triples = [(ac, c, s) for ac in (4, 5) for c in COND_MEMBERS for s in range(4)]
         k = 0
-        for rep in range(4 if thorough else 1):
+        for rep in range(6 if thorough else 2):
             for a in all_confs(rng):
                 ac, c, s = triples[k % len(triples)]
                 k += 1
@@ -725,7 +737,7 @@ class C06Fixed(Prop):
     # ---- Prompt ----
     def prompt_cases(self, rng, thorough):
         k = 0
-        for rep in range(4 if thorough else 1):
+        for rep in range(6 if thorough else 2):
             for a in all_confs(rng):
                 for resp in (0, 1):
                     k += 1
@@ -758,7 +770,7 @@ class C06Fixed(Prop):
     # ---- Keep Alive ----
     def ka_cases(self, rng, thorough):
         k = 0
-        for rep in range(4 if thorough else 1):
+        for rep in range(6 if thorough else 2):
             for a in all_confs(rng):
                 k += 1
                 v = fss_val(rng, a["large"])
@@ -812,7 +824,7 @@ class C06Fixed(Prop):
     def nak_cases(self, rng, thorough):
         counts = [0, 1, 2, 3, 5, 17]
         k = 0
-        for rep in range(4 if thorough else 1):
+        for rep in range(6 if thorough else 2):
             for a in all_confs(rng):
                 k += 1
                 n = counts[k % len(counts)]
@@ -929,7 +941,7 @@ class C06Fixed(Prop):
     # ---- malformed stream shared by the four decoders ----
     def random_octets(self, rng, thorough):
         ops = ["fdir_unpack", "ack_unpack", "prompt_unpack", "ka_unpack", "nak_unpack"]
-        for _ in range(40000 if thorough else 2500):
+        for _ in range(60000 if thorough else 5000):
             ln = rng.choice([0, 1, 3, 4, 6, 7, 8, 9, 10, 11, 12, 15, 16, 24, rng.randint(0, 60)])
             b = bytearray(rbytes(rng, ln))
             if ln > 0 and rng.random() < 0.9:
